@@ -462,6 +462,20 @@ func famFCProgress(w *World, c *Case, rng *rand.Rand) {
 				if respDir {
 					d = resp
 				}
+				// C06: credit granted never exceeds what the application actually consumed
+				// (no Recv is open at this quiescent point: the reader waits at a sync point)
+				if !recvOpen {
+					consumed := int64(0)
+					for _, r := range w.Env.Log.Records() {
+						if r.RPC == "flow" && r.Side == readerSide && r.K == "recv" && r.RetSeq != 0 && r.Err == "" {
+							consumed += int64(len(wrapBytes(make([]byte, r.GotSize))))
+						}
+					}
+					w.Stat("credit_vs_consumed_checks", 1)
+					if d.creditEmitted > consumed {
+						w.Violate("C06", "credit-exceeds-consumed", "step %d: %d bytes of credit were granted but the application has consumed only %d bytes of messages (%s)", i, d.creditEmitted, consumed, w.Cfg)
+					}
+				}
 				if sendOpen {
 					w.Stat("progress_blocked_points", 1)
 					if d.dataEmitted-d.creditEmitted != d.window {
